@@ -102,6 +102,9 @@ def oracle(ctx: Ctx, res) -> None:
                 if v.startswith("#") and ("rst-" + oc.unquote(v[1:])) in pg["anchors"]:
                     # markup written by docutils itself: pydoctor prefixes ids with 'rst-', this href was not
                     sig = "dead-link:rst-docstring:unprefixed-fragment"
+                elif v.startswith("#rst-"):
+                    # a reference kept in a copied summary (or elsewhere) whose docutils target was left behind
+                    sig = "dead-link:rst-docstring:target-not-on-page"
                 ctx.fail(sig, payload, "%s: %s=%r leads nowhere (%s)" % (fn, attr, v, why))
     # search documents: every lunr ref has its document, whose url leads somewhere
     docs = {}
